@@ -472,7 +472,7 @@ func stat(t []string, res string) {
 // runGroup executes one history inside a bubble and returns one result per line.
 func runGroup(t *testing.T, lines [][]string) []string {
 	out := make([]string, len(lines))
-	res := sim.Bubble(t, 120*time.Second, func(t *testing.T) string {
+	res := sim.Bubble(t, 20*time.Second, func(t *testing.T) string {
 		var im *impl
 		defer func() {
 			if im != nil {
